@@ -282,7 +282,7 @@ def IntervalTier_insertEntry(self, entry, collisionMode, collisionReportingMode)
         raise errors.WrongOption("collisionMode", collisionMode, COLLISION_MODES)
     if collisionReportingMode not in REPORTING_MODES:
         raise errors.WrongOption("collisionReportingMode", collisionReportingMode, REPORTING_MODES)
-    new = entry
+    new = Interval(entry[0], entry[1], strip(entry[2]))
     if new.start >= new.end:
         raise errors.ArgumentError("")
     M = [e for e in self.entries if overlaps(e, new.start, new.end)]
@@ -300,3 +300,49 @@ def IntervalTier_insertEntry(self, entry, collisionMode, collisionReportingMode)
     self._entries = E2
     self.minTimestamp = min(self.minTimestamp, new.start)
     self.maxTimestamp = max(self.maxTimestamp, new.end)
+
+
+# ---- C07: eraseRegion ---------------------------------------------------------------------
+# "Erasing a region [a,b] lying inside a tier's span leaves the annotation outside it unchanged and leaves
+# nothing inside it: 'truncate' cuts intervals that reach into the region at a and b, 'categorical' removes
+# every interval that overlaps it, 'error' raises CollisionError if anything overlaps, and points with
+# a <= t <= b are removed (a region with a >= b is rejected). ... without shrinking the span is unchanged."
+
+ERASE_MODES = ("truncate", "categorical", "error")
+
+
+def erase_pieces(e, a, b, mode):
+    """what is left of entry e when [a,b] is blanked"""
+    if not overlaps(e, a, b):
+        return [e]
+    if mode == "categorical":
+        return []
+    if e.start < a and e.end > b:
+        return [Interval(e.start, a, e.label), Interval(b, e.end, e.label)]
+    if e.start < a:
+        return [Interval(e.start, a, e.label)]
+    if e.end > b:
+        return [Interval(b, e.end, e.label)]
+    return []
+
+
+def IntervalTier_eraseRegion_noshrink(self, start, end, collisionMode, doShrink):
+    if collisionMode not in ERASE_MODES:
+        raise errors.WrongOption("collisionMode", collisionMode, ERASE_MODES)
+    if start >= end:
+        raise errors.ArgumentError("")
+    if collisionMode == "error" and exists(self.entries, lambda e: overlaps(e, start, end)):
+        raise errors.CollisionError("")
+    kept = [x for e in self.entries for x in erase_pieces(e, start, end, collisionMode)]
+    return IntervalTier(self.name, kept, self.minTimestamp, self.maxTimestamp)
+
+
+def PointTier_eraseRegion(self, start, end, collisionMode, doShrink):
+    if start >= end:
+        raise errors.ArgumentError("")
+    kept = [p for p in self.entries if not (start <= p.time and p.time <= end)]
+    if doShrink is True:
+        d = end - start
+        moved = [p if p.time < start else Point(p.time - d, p.label) for p in kept]
+        return PointTier(self.name, moved, self.minTimestamp, self.maxTimestamp - d)
+    return PointTier(self.name, kept, self.minTimestamp, self.maxTimestamp)
